@@ -308,6 +308,52 @@ func checkC18(c *Ctx) {
 		c.Check(okOnce, "C18.3", "NextScenario: remaining-- exactly once per returned scenario", p.FuncPos(gen),
 			"every success return is preceded by the single decrement, which cannot execute twice in one call", "decrement sites: "+itoa(len(dec))+" or a success path bypasses / repeats it")
 		c.checkGuard("C18.3", guards["Generator"])
+		// ... and the odometer's digits, not only the slice header: an element of g.indices is read or written only
+		// while the generator's mutex is held (a scenario built from `indices := g.indices` after the unlock is built
+		// from live digits that another caller is advancing: combinations repeat and others are never returned)
+		{
+			const mid = "hs/twins.Generator.mut"
+			nEl := 0
+			var bad []string
+			for _, hf := range helperClosure(p, gen, 1) {
+				if funcPkgPath(hf) != modPath+"/twins" {
+					continue
+				}
+				init := lockState{}
+				if hf != gen {
+					continue // helpers are covered by the guard table's "callers hold the lock" analysis
+				}
+				lf := lockFlow(hf, init)
+				isIndices := func(v ssa.Value) bool {
+					ld, ok := v.(*ssa.UnOp)
+					if !ok {
+						return false
+					}
+					fa, ok := ld.X.(*ssa.FieldAddr)
+					return ok && fieldName(fa.X.Type(), fa.Field) == "hs/twins.Generator.indices"
+				}
+				eachInstr(hf, func(in ssa.Instruction) {
+					ia, ok := in.(*ssa.IndexAddr)
+					if !ok || !isIndices(ia.X) {
+						return
+					}
+					nEl++
+					// every use of the element address (load or store) must happen under the lock
+					for _, r := range *ia.Referrers() {
+						if _, held := lf[r][mid]; !held {
+							bad = append(bad, p.InstrPos(r))
+						}
+					}
+				})
+			}
+			if nEl == 0 {
+				c.Exempt("C18.3", "NextScenario: the odometer's digits are accessed under the generator's mutex", p.FuncPos(gen), "no element access to Generator.indices in NextScenario on this tree (judged where the digits are accessed: guard table)")
+			} else {
+				sortStrings(bad)
+				c.Check(len(bad) == 0, "C18.3", "NextScenario: the odometer's digits are accessed under the generator's mutex", p.FuncPos(gen),
+					itoa(nEl)+" element accesses to Generator.indices, all with Generator.mut held", "a digit of the odometer is read or written without the mutex at "+join(bad)+": concurrent callers build scenarios from digits that are being advanced (repeated scenarios, others never returned)")
+			}
+		}
 		// (scenarios are written by concurrent workers: separator and scenario must go out as one unit)
 		c.checkGuard("C18.3", guards["JSONWriter"])
 		// C18.8 the odometer is advanced only by NextScenario, starting from the all-zero position: the termination
